@@ -49,7 +49,7 @@ ASSUMPTIONS = ["AF_UNIX delivery is synchronous (virtual-time soundness)",
                "a fetch whose server never answers is only generated with a finite request_timeout"]
 REQUIRED_COUNTERS = ["oracle_evals", "completion_evals", "admission_evals", "fifo_evals", "progress_evals",
                      "redirect_hops_seen", "rewrite_evals", "cross_origin_arrivals", "queued_fetches", "queue_timeouts_seen",
-                     "tls_arrivals"]
+                     "tls_arrivals", "request_object_reused"]
 SHARD_TIMEOUT = {"quick": 240, "thorough": 3600}
 
 ORIGINS = [("http", "a.test", 80), ("http", "b.test", 80), ("http", "a.test", 8080), ("https", "a.test", 443)]
@@ -188,6 +188,11 @@ def build_scenario(rng, tier):
         if f["origin"] == 3 or any(v.get("location", "").lower().startswith("https") for v in routes.values()):
             use_tls = True
         fetches.append(f)
+    # application reuses one HTTPRequest object for a later, different fetch (url/headers/credentials re-assigned):
+    # nothing learnt during the first fetch may carry over into the second
+    if nf >= 2 and rng.random() < 0.35:
+        k1, k2 = sorted(rng.sample(range(nf), 2))
+        fetches[k2]["reuse_of"] = k1
     return {"m": m, "fetches": fetches, "routes": routes, "tls": use_tls}
 
 
@@ -415,12 +420,26 @@ async def _scenario(sc, state, ctx):
     order = sorted(sc["fetches"], key=lambda f: (f["at"], f["k"]))
     t0 = loop.time()
     user_recs = {}
+    reqs = {}
+    order = [f for f in order if f.get("reuse_of") is None] + [f for f in order if f.get("reuse_of") is not None]
     for f in order:
         dt = f["at"] - (loop.time() - t0)
         if dt > 0:
             await asyncio.sleep(dt)
+        req = make_request(f)
+        src = f.get("reuse_of")
+        if src is not None and src in futs:
+            try:
+                await futs[src]
+            except Exception:  # noqa: BLE001
+                pass
+            old_req = reqs[src]
+            vars(old_req).update(vars(req))   # every attribute the constructor sets is re-assigned on the old object
+            req = old_req
+            ctx.count("request_object_reused")
+        reqs[f["k"]] = req
         n0 = len(rig.fetches)
-        futs[f["k"]] = client.fetch(make_request(f), raise_error=False)
+        futs[f["k"]] = client.fetch(req, raise_error=False)
         user_recs[f["k"]] = rig.fetches[n0]["fid"] if len(rig.fetches) > n0 else None
         schedule_eval()
     state["user_recs"] = user_recs
